@@ -157,6 +157,9 @@ func (w *World) identify(po tabular.PropertyOwner) (string, bool) {
 			if col := x.Location().Column; col != 0 && col != mc.idx+1 {
 				continue // same item, but at another position of its row
 			}
+			if w.inPass && mc.row != nil && !mc.row.attached && !mc.row.header {
+				continue // same item, but in a row that is not in the table: a render pass does not go there
+			}
 			if p := w.addrPtr(mc); p != nil {
 				if p == x {
 					return "C" + strconv.Itoa(id), true
@@ -320,6 +323,12 @@ func (w *World) DoCB(st *Step) (bool, *Violation) {
 				return true, nil
 			}
 			cb.row = w.handles[len(w.handles)-1-i]
+			if st.E&64 != 0 && len(w.seps) > 0 {
+				// a separator is a row of the table too (AllRows lists it): callbacks
+				// registered on it for itself fire in its turn
+				cb.row = w.seps[pick(len(w.seps), st.B)]
+				w.probe("callback_registered_on_a_separator_row")
+			}
 			if cb.row.real == nil {
 				return true, nil
 			}
@@ -373,8 +382,21 @@ func (w *World) DoCB(st *Step) (bool, *Violation) {
 			asRegistered = simCallbackValue{cb: cb, pad: []int{cb.id}}
 			w.probe("uncomparable_callback_value")
 		}
-		err := w.Tab.RegisterPropertyCallback(owner, cbTimes[cb.time], cbTargets[cb.target], asRegistered)
-		want := supported(cb.owner, cb.target)
+		regTime, regTgt := cbTimes[cb.time], cbTargets[cb.target]
+		outOfRange := false
+		if st.E&32 != 0 {
+			// a target (or, for odd ids, a time) that is none of the defined
+			// constants: not a supported combination for any owner
+			outOfRange = true
+			if cb.id%2 == 1 {
+				regTime = tabular.CB_AT_RENDER_POSTCELL + 1 + cbTimes[cb.time]
+			} else {
+				regTgt = tabular.CB_ON_ROW + 1 + cbTargets[cb.target]
+			}
+			w.probe("registration_with_a_value_outside_the_defined_constants")
+		}
+		err := w.Tab.RegisterPropertyCallback(owner, regTime, regTgt, asRegistered)
+		want := supported(cb.owner, cb.target) && !outOfRange
 		if w.Log != nil {
 			w.Log.Add(fmt.Sprintf("register cb#%d %s/%s/%s err=%v", cb.id, ownNames[cb.owner], timeNames[cb.time], targetNames[cb.target], err != nil))
 		}
